@@ -14,7 +14,8 @@
                                             (`C04_T1_full`), audited on every response by `aud`/`audans`
     T2  truncation handling               — proved here, on the operation log of the answer phase
     T3  limit monotonicity (UDP = TCP when TCP fits)
-                                          — a property of the writer: stated (`C04_T3_full`), audited
+                                          — a property of the writer: proved for the calls of the
+                                            answer phase (`C04_T3`), audited end to end
     T4  only optional additional records may be missing, never mandatory glue
                                           — proved here as statements about which calls are issued
                                             inside `execute_allowing_truncation`
@@ -31,6 +32,7 @@
   (tag `C04:T3-tcp-servfail-after-udp-overflow`, corpus/C04).
 -/
 import QV.Proofs.ServerAnswer
+import QV.Proofs.ServerAnswerLimit
 import QV.Proofs.Writer
 
 namespace QV.C04
@@ -80,20 +82,79 @@ def SameButLimit (s1 s2 : Writer.State) : Prop :=
   s1.limit ≤ s2.limit ∧ s2.available = s1.available + (s2.limit - s1.limit) ∧
   { s2 with limit := s1.limit, available := s1.available } = s1
 
-/-- **T3 at full strength** (limit monotonicity of the writer): a sequence of public writer calls
-    that succeeds under the larger limit and ends within the smaller one succeeds under the
-    smaller one too, call for call, and writes the same octets. (The server issues the same calls
-    over both transports as long as none fails, so the UDP response equals the TCP one whenever the
-    latter fits the UDP limit.) -/
+/-- `SameButLimit s1 s2` says `s2` is `s1` with `s2.limit - s1.limit` more octets of room -/
+theorem sameButLimit_iff_lift (s1 s2 : Writer.State) :
+    SameButLimit s1 s2 ↔ ∃ d, s2 = lift d s1 := by
+  constructor
+  · rintro ⟨h1, h2, h3⟩
+    refine ⟨s2.limit - s1.limit, ?_⟩
+    cases s1; cases s2
+    simp only [lift, State.mk.injEq] at h1 h2 h3 ⊢
+    obtain ⟨e1, e2, _, _, e5, e6, e7, e8, e9, e10, e11, e12, e13, e14, e15, e16, e17, e18, e19, e20⟩ := h3
+    refine ⟨e1, e2, by omega, by omega, e5, e6, e7, e8, e9, e10, e11, e12, e13, e14, e15, e16, e17, e18, e19, e20⟩
+  · rintro ⟨d, rfl⟩
+    refine ⟨by simp [lift], by simp [lift], ?_⟩
+    cases s1; rfl
+
+/-- **T3 at full strength** (limit monotonicity of the writer, for the calls of the answer phase
+    — `set_aa`, `set_rcode`, `add_*_rr`, `add_*_rrset`): a sequence of calls that succeeds, call
+    for call, under the larger limit and ends within the smaller room succeeds under the smaller
+    limit too, and leaves the same state up to the room — the same cursor, octets, counts and
+    header. (The server issues the same calls over both transports as long as none fails, so the
+    UDP response equals the TCP one whenever the latter's complete answer fits the UDP limit.)
+
+    The calls of the *scan* phase are deliberately not in the list: `set_edns` / `set_tsig`
+    reserve room (a run that ends within the smaller room may still have no place for the
+    reservation there) and `set_limit` changes the room; over UDP and TCP the scan differs only by
+    `set_limit`, after which both writers are in `SameButLimit` states. -/
 def C04_T3_full : Prop :=
-  ∀ (s1 s2 : Writer.State) (ops : List Writer.Op),
-    SizeInv s1 → SizeInv s2 → SameButLimit s1 s2 →
-    (∀ r ∈ (Writer.run ⟨s2, []⟩ ops).2, r = .ok ()) →
-    (Writer.run ⟨s2, []⟩ ops).1.w.cursor ≤ s1.available →
-      (Writer.run ⟨s1, []⟩ ops).2 = (Writer.run ⟨s2, []⟩ ops).2 ∧
-      (Writer.run ⟨s1, []⟩ ops).1.w.cursor = (Writer.run ⟨s2, []⟩ ops).1.w.cursor ∧
-      (Writer.run ⟨s1, []⟩ ops).1.w.octets.extract 0 (Writer.run ⟨s1, []⟩ ops).1.w.cursor
-        = (Writer.run ⟨s2, []⟩ ops).1.w.octets.extract 0 (Writer.run ⟨s2, []⟩ ops).1.w.cursor
+  ∀ (cs : List AnsCall) (s1 s2 t2 : Writer.State), SameButLimit s1 s2 →
+    runCalls cs s2 = (.ok (), t2) → t2.cursor ≤ s1.available →
+      ∃ t1, runCalls cs s1 = (.ok (), t1) ∧ SameButLimit t1 t2 ∧
+        t1.cursor = t2.cursor ∧ t1.octets = t2.octets
+
+/-- **T3 holds.** (`QV.ServerAnswer.sim_runCalls`; call by call `sim_addRrOp`, `sim_addRrsetOp`:
+    every internal step of the writer — names, compression decisions, RDATA components — reads
+    the room only through "does it fit".) -/
+theorem C04_T3 : C04_T3_full := by
+  intro cs s1 s2 t2 hs h hc
+  obtain ⟨d, rfl⟩ := (sameButLimit_iff_lift s1 s2).mp hs
+  obtain ⟨t1, h1, ht⟩ := sim_runCalls cs d s1 t2 h hc
+  refine ⟨t1, h1, (sameButLimit_iff_lift t1 t2).mpr ⟨d, ht⟩, ?_, ?_⟩ <;> rw [ht] <;> rfl
+
+/-- one record-adding call does not depend on the limit -/
+theorem C04_T3_add_rrset (sec : RrSection) (hint : Hint) (owner : WName) (ty cls ttl : Nat)
+    (rds : List (List UInt8)) (d : Nat) (s t : Writer.State)
+    (h : addRrsetOp sec hint owner ty cls ttl rds (lift d s) = (.ok (), t)) (hc : t.cursor ≤ s.available) :
+    ∃ s', addRrsetOp sec hint owner ty cls ttl rds s = (.ok (), s') ∧ t = lift d s' :=
+  sim_addRrsetOp sec hint owner ty cls ttl rds d s () t h hc
+
+/-- when the answering logic succeeds, `handle_non_axfr_query` adds nothing (either transport) -/
+theorem C04_handle_of_inner_ok (z : Zone.Zone) (qname : WName) (qtype : Nat) (tr : Transport) (ps ps' : PS)
+    (h : inner z qname qtype ps = (.ok (), ps')) : handleNonAxfrQueryL z qname qtype tr ps = (.ok (), ps') := by
+  have hin : (if qtype = QT "ANY" then answerAny z qname ps else Server.answer z qname qtype ps)
+      = inner z qname qtype ps := by
+    unfold inner; split <;> rfl
+  unfold handleNonAxfrQueryL
+  simp only [hin, h]
+
+/-- **T3 for the server's answer phase**: let the writers of the two transports differ only in the
+    room (`lift d w` has `d` more octets than `w` — TCP vs UDP after `set_limit`). If with more
+    room the answering logic succeeds with every call accepted (the complete answer) and the
+    result fits the smaller room, then with the smaller room `handle_non_axfr_query` makes the
+    same calls with the same results (the same log, so the same RCODE, AA, sections, TC clear) and
+    leaves the same octets: the UDP response is the TCP response. When the answering logic *fails*
+    with more room (SERVFAIL) nothing of the kind holds — `C04_T3_corner_shape`, known finding K01. -/
+theorem C04_T3_answer_phase (z : Zone.Zone) (qname : WName) (qtype : Nat) (tr1 tr2 : Transport) (d : Nat)
+    (w : Writer.State) (pt : PS)
+    (h : inner z qname qtype ⟨lift d w, []⟩ = (.ok (), pt)) (hok : ∀ e ∈ pt.log, OkEv e)
+    (hc : pt.w.cursor ≤ w.available) :
+    handleNonAxfrQueryL z qname qtype tr2 ⟨lift d w, []⟩ = (.ok (), pt) ∧
+    ∃ ps', handleNonAxfrQueryL z qname qtype tr1 ⟨w, []⟩ = (.ok (), ps') ∧ ps'.log = pt.log ∧
+      pt.w = lift d ps'.w ∧ ps'.w.cursor = pt.w.cursor ∧ ps'.w.octets = pt.w.octets := by
+  refine ⟨C04_handle_of_inner_ok z qname qtype tr2 _ _ h, ?_⟩
+  obtain ⟨ps', h1, h2, h3⟩ := inner_limit_independent z qname qtype d w pt h hok hc
+  exact ⟨ps', C04_handle_of_inner_ok z qname qtype tr1 _ _ h1, h2, h3, by rw [h3]; rfl, by rw [h3]; rfl⟩
 
 /-! ### T2: what `handle_non_axfr_query` does with a `Truncation` -/
 
@@ -284,5 +345,18 @@ example : view (handleNonAxfrQueryL exZone ⟨[[120], lz]⟩ 1 .tcp ⟨wSmall, [
 /-- the finished UDP message is 21 octets (header + question): within the limit of 40 -/
 example : (match Writer.finish (handleNonAxfrQueryL exZone ⟨[[120], lz]⟩ 1 .udp ⟨wSmall, []⟩).2.w with
     | .ok (b, _) => b.size | _ => 0) = 21 := by decide +kernel
+
+/-- non-vacuity of T3: a 512-octet writer and the same writer with 65 023 more octets of room
+    (UDP vs TCP); the NXDOMAIN answer is complete with the larger room and fits the smaller one -/
+def wUdp : Writer.State :=
+  match Writer.new (Array.replicate 65535 0) 512 with
+  | .ok w => (Writer.addQuestion ⟨[[120], lz]⟩ 1 1 w).2
+  | _ => default
+
+example : (inner exZone ⟨[[120], lz]⟩ 1 ⟨lift 65023 wUdp, []⟩).1 = .ok () ∧
+    (inner exZone ⟨[[120], lz]⟩ 1 ⟨lift 65023 wUdp, []⟩).2.w.cursor ≤ wUdp.available ∧
+    (inner exZone ⟨[[120], lz]⟩ 1 ⟨lift 65023 wUdp, []⟩).2.log
+      = [.rcode 3, .aa true, .add ⟨.authority, ⟨[lz]⟩, 6, 1, 60, [soaRd], false, .ok ()⟩] := by
+  decide +kernel
 
 end QV.C04
